@@ -70,6 +70,37 @@ def run(chk):
                                       % (name, v["assignment"], body2, v["body"]), {"vector": v, "now": body2}, key="width-drift:" + name)
             except Exception as e:  # noqa
                 drift.append((name, "foreign-width items refused: %s" % type(e).__name__))
+        # the same assignment with every integer-like parameter (plain, enum, bitmap) given as a zigpy integer of ANOTHER
+        # width: the pinned revision converts every value to the field's own type, so the field layout on the wire is the
+        # schema's, whatever the caller's runtime type
+        if not body.startswith("EXC:") and body == v["body"]:
+            try:
+                import zigpy.types as zt
+                kw3, changed3 = dict(kw), False
+                for p in cls.schema:
+                    import enum as _enum
+                    if p.name not in kw or W.classify(p.type)[0] != "int" or issubclass(p.type, _enum.Enum):
+                        continue            # (an enumeration field refuses anything but its own type)
+                    iv = int(kw[p.name])
+                    if iv < 0:
+                        continue
+                    width = W.classify(p.type)[1]
+                    pool = [q for q in (zt.uint8_t, zt.uint16_t, zt.uint32_t, zt.uint64_t) if q._size != width and iv < (1 << (8 * q._size))]
+                    if pool:
+                        kw3[p.name] = pool[0](iv)
+                        changed3 = True
+                if changed3:
+                    body3 = W.hexs(bytes(cls(**kw3).to_frame().hl_packet.data))
+                    chk.evaluations += 1
+                    chk.count("foreign_width_scalar_variants")
+                    if body3 != v["body"] and bad is None:
+                        bad = v
+                        drift.append((name, "integers given with another width encode to %s, pinned %s" % (body3[:80], v["body"][:80])))
+                        chk.violation("%s: with its integer parameters given as zigpy integers of another width, %s encodes to %s; "
+                                      "the pinned bytes (field widths of the protocol) are %s" % (name, v["assignment"], body3, v["body"]),
+                                      {"vector": v, "now": body3}, key="scalar-width-drift:" + name)
+            except Exception as e:  # noqa
+                drift.append((name, "integers of another width refused: %s: %s" % (type(e).__name__, str(e)[:80])))
         if body != v["body"] or frame != v["frame"]:
             drift.append((name, "assignment %s encodes to %s, pinned %s" % (v["assignment"], frame[:80], v["frame"][:80])))
             if bad is None:
